@@ -91,6 +91,46 @@ fn gen_values(g: &mut Sm64, ty: Ty, shape: (usize, usize, usize), encode: bool) 
     v
 }
 
+/// Owned arrays with the same logical content in different memory layouts (a correct writer goes
+/// by logical indices, whatever the strides are).
+#[derive(Clone, Copy, Debug, PartialEq, Eq, Hash)]
+enum Layout {
+    Standard,
+    Fortran,
+    Permuted,
+    SlicedReversed,
+}
+const LAYOUTS: [Layout; 4] = [Layout::Standard, Layout::Fortran, Layout::Permuted, Layout::SlicedReversed];
+
+fn build<T: Clone + Default>(shape: (usize, usize, usize), vals: &[T], layout: Layout) -> Array3<T> {
+    use ndarray::ShapeBuilder;
+    let (a, b, c) = shape;
+    let at = |i: usize, j: usize, k: usize| vals[(i * b + j) * c + k].clone();
+    match layout {
+        Layout::Standard => Array3::from_shape_fn(shape, |(i, j, k)| at(i, j, k)),
+        Layout::Fortran => {
+            let mut f = Array3::from_elem(shape.f(), T::default());
+            for i in 0..a {
+                for j in 0..b {
+                    for k in 0..c {
+                        f[[i, j, k]] = at(i, j, k);
+                    }
+                }
+            }
+            f
+        }
+        Layout::Permuted => Array3::from_shape_fn((b, a, c), |(j, i, k)| at(i, j, k)).permuted_axes([1, 0, 2]),
+        Layout::SlicedReversed if b == 0 => Array3::from_shape_fn(shape, |(i, j, k)| at(i, j, k)),
+        Layout::SlicedReversed => {
+            // every second observation of a larger array, observation axis reversed
+            let big = Array3::from_shape_fn((a, 2 * b, c), |(i, jj, k)| if jj % 2 == 1 && jj / 2 < b { at(i, b - 1 - jj / 2, k) } else { T::default() });
+            let mut v = big.slice_move(ndarray::s![.., 1..;2, ..]);
+            v.invert_axis(ndarray::Axis(1));
+            v
+        }
+    }
+}
+
 fn same_f64(a: f64, b: f64) -> bool {
     (a.is_nan() && b.is_nan()) || a.to_bits() == b.to_bits()
 }
@@ -161,7 +201,9 @@ fn one(rep: &mut Report, mon: &str, case: u64, g: &mut Sm64, ctx: &Ctx, entry: E
     let (a, b, c) = shape; // array axes as passed to the function
     let vals = gen_values(g, ty, shape, encode);
     let path = format!("{}/c17_{}_{}.out", ctx.scratch, case, g.next_u64());
-    let cfg = json!({"entry": format!("{entry:?}"), "type": format!("{ty:?}"), "shape": [a, b, c], "encoded_cells": encode});
+    let layout = if matches!(entry, Entry::Csv | Entry::Arrow | Entry::Parquet) { LAYOUTS[g.below(4)] } else { Layout::Standard };
+    rep.count(&format!("layout[{layout:?}]"));
+    let cfg = json!({"entry": format!("{entry:?}"), "type": format!("{ty:?}"), "shape": [a, b, c], "encoded_cells": encode, "memory_layout": format!("{layout:?}")});
     let sig = format!("{entry:?}");
     rep.eval();
     rep.count(&format!("entry[{entry:?}]"));
@@ -170,16 +212,16 @@ fn one(rep: &mut Report, mon: &str, case: u64, g: &mut Sm64, ctx: &Ctx, entry: E
         let arr_f = |f: &dyn Fn(f64) -> f64| -> Vec<f64> { vals.iter().map(|x| f(*x)).collect() };
         let _ = arr_f;
         match (entry, ty) {
-            (Entry::Csv, Ty::F32) => save_csv(&Array3::from_shape_vec(shape, vals.iter().map(|x| *x as f32).collect()).unwrap(), &path),
-            (Entry::Csv, Ty::F64) => save_csv(&Array3::from_shape_vec(shape, vals.clone()).unwrap(), &path),
-            (Entry::Csv, Ty::I32) => save_csv(&Array3::from_shape_vec(shape, vals.iter().map(|x| *x as i32).collect()).unwrap(), &path),
-            (Entry::Csv, Ty::Usize) => save_csv(&Array3::from_shape_vec(shape, vals.iter().map(|x| *x as usize).collect()).unwrap(), &path),
-            (Entry::Arrow, Ty::F32) => save_arrow(&Array3::from_shape_vec(shape, vals.iter().map(|x| *x as f32).collect()).unwrap(), &path),
-            (Entry::Arrow, Ty::F64) => save_arrow(&Array3::from_shape_vec(shape, vals.clone()).unwrap(), &path),
-            (Entry::Arrow, Ty::I32) => save_arrow(&Array3::from_shape_vec(shape, vals.iter().map(|x| *x as i32).collect()).unwrap(), &path),
-            (Entry::Parquet, Ty::F32) => save_parquet(&Array3::from_shape_vec(shape, vals.iter().map(|x| *x as f32).collect()).unwrap(), &path),
-            (Entry::Parquet, Ty::F64) => save_parquet(&Array3::from_shape_vec(shape, vals.clone()).unwrap(), &path),
-            (Entry::Parquet, Ty::I32) => save_parquet(&Array3::from_shape_vec(shape, vals.iter().map(|x| *x as i32).collect()).unwrap(), &path),
+            (Entry::Csv, Ty::F32) => save_csv(&build(shape, &vals.iter().map(|x| *x as f32).collect::<Vec<_>>(), layout), &path),
+            (Entry::Csv, Ty::F64) => save_csv(&build(shape, &vals, layout), &path),
+            (Entry::Csv, Ty::I32) => save_csv(&build(shape, &vals.iter().map(|x| *x as i32).collect::<Vec<_>>(), layout), &path),
+            (Entry::Csv, Ty::Usize) => save_csv(&build(shape, &vals.iter().map(|x| *x as usize).collect::<Vec<_>>(), layout), &path),
+            (Entry::Arrow, Ty::F32) => save_arrow(&build(shape, &vals.iter().map(|x| *x as f32).collect::<Vec<_>>(), layout), &path),
+            (Entry::Arrow, Ty::F64) => save_arrow(&build(shape, &vals, layout), &path),
+            (Entry::Arrow, Ty::I32) => save_arrow(&build(shape, &vals.iter().map(|x| *x as i32).collect::<Vec<_>>(), layout), &path),
+            (Entry::Parquet, Ty::F32) => save_parquet(&build(shape, &vals.iter().map(|x| *x as f32).collect::<Vec<_>>(), layout), &path),
+            (Entry::Parquet, Ty::F64) => save_parquet(&build(shape, &vals, layout), &path),
+            (Entry::Parquet, Ty::I32) => save_parquet(&build(shape, &vals.iter().map(|x| *x as i32).collect::<Vec<_>>(), layout), &path),
             (Entry::CsvTensor, Ty::F32) => {
                 let t = Tensor::<NdArray<f32>, 3>::from_data(TensorData::new(vals.iter().map(|x| *x as f32).collect::<Vec<f32>>(), [a, b, c]), &Default::default());
                 save_csv_tensor(t, &path)
@@ -293,7 +335,7 @@ fn one(rep: &mut Report, mon: &str, case: u64, g: &mut Sm64, ctx: &Ctx, entry: E
     if a * b * c == 0 {
         rep.count("empty_arrays_round_tripped");
     }
-    rep.distinct(("io", format!("{entry:?}"), format!("{ty:?}"), a, b, c, encode));
+    rep.distinct(("io", format!("{entry:?}"), format!("{ty:?}"), a, b, c, encode, format!("{layout:?}")));
     if rep.samples.len() < 4 {
         rep.sample(json!({"cfg": cfg, "rows": rows.len(), "first_row": rows.first().map(|r| json!({"labels": [r.0, r.1], "values": fjv(&r.2[..r.2.len().min(4)])}))}));
     }
